@@ -117,9 +117,9 @@ impl BytesToBytesCodecTraits for Bz2Codec {
         decoded_representation
             .size()
             .map_or(BytesRepresentation::UnboundedSize, |size| {
-                // https://en.wikipedia.org/wiki/Bzip2#Implementation
-                // TODO: Below assumes a maximum expansion of 1.25 for the blocks + header (4 byte) + footer (11 byte), but need to read spec
-                BytesRepresentation::BoundedSize(4 + 11 + size + size.div_ceil(4))
+                // bzip2 manual: "allocate an output buffer of size 1% larger than the uncompressed data,
+                // plus six hundred extra bytes" (small inputs expand by far more than 25%)
+                BytesRepresentation::BoundedSize(size + size.div_ceil(100) + 600)
             })
     }
 }
